@@ -172,6 +172,16 @@ func newPlan(quick bool) *plan {
 		return
 	}
 	p.prettySm, p.prettyFull = mk(small), mk(full)
+	// every vector again with the float verb set explicitly
+	withVerb := func(vs []optVec) []optVec {
+		out := append([]optVec{}, vs...)
+		for _, v := range vs {
+			v.FloatFormat = "%g"
+			out = append(out, v)
+		}
+		return out
+	}
+	p.ojVecs, p.ojSm, p.prettySm, p.prettyFull = withVerb(p.ojVecs), withVerb(p.ojSm), withVerb(p.prettySm), withVerb(p.prettyFull)
 	for _, v := range p.prettySm {
 		if v.HTMLUnsafe {
 			p.prettyTiny = append(p.prettyTiny, v)
@@ -630,6 +640,7 @@ func (r *runner) minimise(e *entry, t, v any, ov optVec, core string, multi bool
 	try(func(o *optVec) { o.OmitNil = false })
 	try(func(o *optVec) { o.OmitEmpty = false })
 	try(func(o *optVec) { o.HTMLUnsafe = true })
+	try(func(o *optVec) { o.FloatFormat = "" })
 	if e.pretty {
 		try(func(o *optVec) { o.Align = false })
 		try(func(o *optVec) { o.Width = 80 })
@@ -664,6 +675,7 @@ func optLabels(e *entry, o *optVec) string {
 	add(o.OmitNil, "omitnil")
 	add(o.OmitEmpty, "omitempty")
 	add(!o.HTMLUnsafe, "htmlsafe")
+	add(o.FloatFormat != "", "floatformat")
 	if e.pretty {
 		add(o.Align, "align")
 		add(o.Width != 0 && o.Width < 80, "width<80")
